@@ -740,13 +740,20 @@ func shouldSkipElement(tagName string) bool {
 	return false
 }
 
-// isBlockContainer returns true if the element is a block container with block-level children.
+// isBlockContainer returns true if the element is a block container: it has
+// block-level content, as children or further down inside elements that are
+// not blocks themselves (<div><figure><table>: the table must not be flattened
+// into the text of the div). The search ends at the first block it meets, so
+// nested containers stay linear.
 func isBlockContainer(n *html.Node) bool {
 	for c := n.FirstChild; c != nil; c = c.NextSibling {
 		if c.Type == html.ElementNode {
 			switch c.Data {
 			case "div", "p", "ul", "ol", "table", "h1", "h2", "h3", "h4", "h5", "h6", "blockquote", "pre",
 				"article", "section", "main", "header", "footer", "nav", "aside":
+				return true
+			}
+			if !shouldSkipElement(c.Data) && isBlockContainer(c) {
 				return true
 			}
 		}
